@@ -8,7 +8,7 @@ from ..lin import lin_eq, lin_sub, lin_add, linear
 from ..pm import src
 from ..q import FA, call_name, compare_parts, conjuncts, guard_facts, has_fact, nfact, nfacts, walk_no_nested
 
-TECHNIQUE = "def-use on the returned threshold, R-LIN integer identities for the three clamps with branch-order checks on the CFG, canonical form of the training floor, reviewed R-ARGMAX table for first-true idioms, R-ORDER on up-front validation; first-true idiom rule; log-space algebra for the weighted quantile (C17.5)"
+TECHNIQUE = "def-use on the returned threshold, R-LIN integer identities for the three clamps with branch-order checks on the CFG, canonical form of the training floor, reviewed R-ARGMAX table for first-true idioms, R-ORDER on up-front validation; first-true idiom rule; log-space algebra for the weighted quantile (C17.5); who-may-write rule for the limits"
 
 INS = tables.INS
 
@@ -265,7 +265,7 @@ def _lin_cmp(test, left, op, right):
 
 
 CLAIM = {
-    "text": "Decides, for every live set and weight vector, the integer-arithmetic clauses of the threshold choice: the returned threshold is samples[n]['logL'] of the samples it was given on every path except the documented min_remove<1 early exit; n comes from the selected method as an int; the three clamps are exact linear identities (kept = size - max(0, size - min_samples) = min_samples under the guard size - n < min_samples; elif n < min_remove then n := min_remove; cap (size - n') + nlive = max_samples under draw_constant and max_samples and (size - n) + nlive > max_samples) applied in that order before the threshold is read; the next proposal is trained on the tail slice starting at min(first index at/above the threshold, size - min_samples) with the density rows sliced identically; every np.argmax(<predicate>) first-true idiom in the sampler is in a reviewed table whose stated reason is itself checked (CDF divided by its last element; cut-off is a quantile of the searched array); min_samples/min_remove > nlive are rejected in the constructor. First-true idioms are np.argmax(<comparison>) (answers 0) and flatnonzero / where / nonzero(<comparison>)[0] (raises on an empty selection); the reviewed table records whether the mask can be all False, and a raising idiom must then be guarded.",
+    "text": "Decides, for every live set and weight vector, the integer-arithmetic clauses of the threshold choice: the returned threshold is samples[n]['logL'] of the samples it was given on every path except the documented min_remove<1 early exit; n comes from the selected method as an int; the three clamps are exact linear identities (kept = size - max(0, size - min_samples) = min_samples under the guard size - n < min_samples; elif n < min_remove then n := min_remove; cap (size - n') + nlive = max_samples under draw_constant and max_samples and (size - n) + nlive > max_samples) applied in that order before the threshold is read; the next proposal is trained on the tail slice starting at min(first index at/above the threshold, size - min_samples) with the density rows sliced identically; every np.argmax(<predicate>) first-true idiom in the sampler is in a reviewed table whose stated reason is itself checked (CDF divided by its last element; cut-off is a quantile of the searched array); min_samples/min_remove > nlive are rejected in the constructor. First-true idioms are np.argmax(<comparison>) (answers 0) and flatnonzero / where / nonzero(<comparison>)[0] (raises on an empty selection); the reviewed table records whether the mask can be all False, and a raising idiom must then be guarded. min_samples / min_remove / max_samples are assigned once, in the constructor, from the arguments of that name; the training slice starts at max(0, size - min_samples) (C17.3; the unclamped start was a defect, repaired).",
     "note": "Does not decide the index range of the cap for all parameter combinations, nor monotonicity / range of the Harrell-Davis weighted quantile (numeric).",
 }
 
